@@ -150,6 +150,26 @@ def shape_routes(ctx, rng):
         "two components (n, N, 2)": good[:, :, :2].copy(),
         "extra atom (n, N+1, 3)": rng.normal(size=(n, N + 1, 3)),
     }
+    # sanity: the same routes with a well-shaped dataset must work (otherwise "it raised" below would mean nothing)
+    for route in ("constructor", "setters", "setter-after-valid"):
+        for call in ("solve", "run"):
+            try:
+                if route == "constructor":
+                    o = Symfc(at, displacements=d0, forces=good)
+                elif route == "setters":
+                    o = Symfc(at)
+                    o.displacements = d0
+                    o.forces = good
+                else:
+                    o = Symfc(at, displacements=d0, forces=f0)
+                    o.forces = good
+                o.basis_set = dict(basis)
+                (o.solve if call == "solve" else o.run)(orders=[2])
+                ok_ = 2 in o.force_constants
+            except Exception as e:  # noqa: BLE001
+                ok_ = False
+                ctx.notes.append(f"shape-route sanity {route}/{call}: {type(e).__name__}: {e}")
+            ctx.require(f"a well-shaped dataset given through the {route} is accepted by {call}()", ok_)
     for kname, bad in kinds.items():
         if bad is None:
             continue
